@@ -38,7 +38,7 @@ class Job:
                  bound=None, replay=False, fallback=None, config='slack', min_obl=1,
                  entry='harness', checks=None, slice_tag=None, nondet_static=False,
                  note='', assumptions=(), object_bits=None, instrument=(), weight=1,
-                 no_repo_inc=False, sliced=False, split=None, no_std_checks=False, frame_prop=None, stubs=(), special=None, variants=None, quick_props=None, all_props=None, trace_defines=()):
+                 no_repo_inc=False, sliced=False, split=None, no_std_checks=False, frame_prop=None, stubs=(), special=None, variants=None, quick_props=None, all_props=None, trace_defines=(), thorough_props=None):
         self.name = name
         self.props = list(props)
         self.engine = engine            # 'A' loop contracts, 'C' loop-free, 'B' bounded
@@ -74,6 +74,7 @@ class Job:
         self.no_std_checks = no_std_checks
         self.trace_defines = list(trace_defines)   # extra -D for the traced re-run (smaller objects: cheaper traces)
         self.all_props = all_props           # attribute every (non-canary) obligation of the job to these properties
+        self.thorough_props = thorough_props   # thorough tier: only for these properties (None = all of props)
         self.quick_props = quick_props       # properties for which the job is part of the QUICK tier (default: all of props)
         self.variants = variants             # list of dicts(label, defines, unwind, unwindset): one run each, merged
         self.special = special               # python callable(repo) -> obligations (static-fact jobs)
